@@ -19,10 +19,10 @@ import (
 func TestMain(m *testing.M) { hx.Main(m) }
 
 type Case struct {
-	Kind string `json:"kind"` // datauri | mediatype
-	In   string `json:"in"`
-	InH  string `json:"in_hex,omitempty"`
-	Stub string `json:"stub"` // none | shrink | grow | fail | identity  (registered for StubType)
+	Kind     string `json:"kind"` // datauri | mediatype
+	In       string `json:"in"`
+	InH      string `json:"in_hex,omitempty"`
+	Stub     string `json:"stub"` // none | shrink | grow | fail | identity  (registered for StubType)
 	StubType string `json:"stub_type,omitempty"`
 }
 
